@@ -372,7 +372,14 @@ Definition eff_style (p : pdef) : string :=
 Definition eff_explode (p : pdef) : bool :=
   match pd_explode p with
   | Some b => b
-  | None => match pd_in p with LPath | LHeader => false | LQuery | LCookie => true end
+  | None =>
+      (* "When style is form, the default value is true. For all other styles, the default value is
+         false" - deepObject, only defined exploded, counts as true (before the repair in /repo:
+         true for every query and cookie style) *)
+      match pd_in p with
+      | LPath | LHeader => false
+      | LQuery | LCookie => String.eqb (eff_style p) "form" || String.eqb (eff_style p) "deepObject"
+      end
   end.
 
 (* the 17 (in, style, explode) cells Parameter.Validate accepts *)
